@@ -1,15 +1,28 @@
-"""Helpers of the C07 rule pack: symbolic execution along enumerated paths.
+"""Helpers of the C07 rule pack: copy propagation (reaching-definition substitution) along enumerated paths.
 
-`sa.tables.extract` inlines *single-definition* locals only and assumes the definition precedes every use,
-which is wrong for loop targets that are re-bound in the loop body (`key = key.evolve(...)`) and loses the
-rows of functions that re-bind a parameter (`value = self.toint(value)`).  Here every path produced by
-`sa.paths.Enumerator` is replayed statement by statement with an environment {local name -> expression over
-the *initial* symbols}: parameters are ARG1, ARG2 ... (`self` stays), loop targets are ELEM<k> (k = ordinal of
-the `for` statement in the analysed body), every other local is replaced by its current definition.  Conditions
-become canonical atoms (`sa.tables.canon`) of the substituted expression, so they are versioned by construction;
-stores, deletes and expression statements become ordered *effects*.
+Family policy: this is form (d) + (b) of sa/README.md.  No statement is executed and no value is computed, neither
+for sample nor for symbolic inputs.  For every *syntactic* path of `sa.paths.Enumerator` (loops 0/1 times, never run)
+the helper keeps a def-use map {local name -> the expression that reaches it, written over the function's
+parameters}: parameters are renamed ARG1, ARG2 ... (`self` stays), a loop target is the opaque name ELEM<k>
+(k = ordinal of the `for` statement), an assignment `x = e` makes later reads of `x` print as `e` (copy
+propagation), `x op= e` prints as `x op e`.  Nothing is simplified or folded except `T.cast(t, e)` -> `e`.
+What comes out is *shape*:
+  * every branch predicate becomes a canonical atom (`sa.tables.canon`) of the substituted expression, so atoms
+    are versioned by their reaching definitions by construction; the rules then enumerate the consistent worlds
+    of these atoms (`Table.worlds`) and compare the row that fires with a reference denotation;
+  * every store / delete / expression statement becomes an ordered *effect* whose normalised text and operand
+    roles are compared with the reference (`self.augments[ARG1] := self.resolve_option(ARG1).validate_value(RAW)`).
+The only truth values decided here are constant facts: `None is None`, `e is e` for identical expressions, and the
+falsity of a local whose reaching definition is an empty container display that no statement has mentioned since
+(a two-state typestate fresh/touched); contradictory polarities of one atom on a path prune the path.
 
-Nothing is executed; the repository AST is never mutated (work is done on deep copies).
+Why not `sa.tables.extract`: it inlines *single-definition* locals only and assumes the definition precedes every
+use, which is wrong for loop targets re-bound in the loop body (`key = key.evolve(...)`) and loses the rows of
+functions that re-bind a parameter (`value = self.toint(value)`).
+
+Two expressions with the same canonical text on one path are taken to denote the same value (the analysed functions
+do not re-evaluate an impure expression between two tests of it).  The repository AST is never mutated (statements
+are deep-copied before preparation, substitution builds new nodes and shares the rest).
 """
 from __future__ import annotations
 
@@ -26,8 +39,8 @@ EMPTY_CTORS = {'dict', 'list', 'set', 'OrderedDict', 'OrderedSet'}
 
 
 # ---------------------------------------------------------------------------
-# preparation: asserts are no-ops (python -O), conditional expressions that are the whole value of an
-# assignment / return become if-statements so that the path enumerator decomposes them.
+# preparation: asserts are no-ops (python -O); a conditional expression inside a simple statement turns the
+# statement into an if-statement with one copy per arm, so that the path enumerator decomposes the condition.
 class _Pick(ast.NodeTransformer):
     """replace the first conditional expression (pre-order; not inside lambdas, comprehensions, f-strings) by one arm"""
 
@@ -140,9 +153,6 @@ def fsub(env: T.Dict[str, ast.AST], e: T.Any, blocked: T.FrozenSet[str] = frozen
         return e
     node = e.__class__(**vals)
     return ast.copy_location(node, e) if hasattr(e, 'lineno') else node
-
-
-_NORM: T.Dict[int, T.Tuple[ast.AST, str]] = {}
 
 
 def sub(env: T.Dict[str, ast.AST], e: ast.AST) -> ast.AST:
@@ -262,7 +272,7 @@ def trivial(a: Atom) -> T.Optional[bool]:
 
 
 class Sym:
-    """Symbolic replay of the paths of a statement list."""
+    """Def-use substitution along the enumerated paths of a statement list (nothing is executed)."""
 
     def __init__(self, fn: T.Union[ast.FunctionDef, ast.AsyncFunctionDef], *, opaque: T.Iterable[str] = (),
                  pure: T.Iterable[str] = (), unroll: int = 1, handlers: bool = False, entered_only: bool = False,
@@ -339,7 +349,7 @@ class Sym:
                              ast.FunctionDef, ast.AsyncFunctionDef, ast.ClassDef)):
             pass
         else:
-            raise Undecided(f'statement kind outside the symbolic subset: {short(st)}')
+            raise Undecided(f'statement kind outside the subset the def-use walk understands: {short(st)}')
 
     # -- whole paths ------------------------------------------------------------
     def rows(self, body: T.Optional[T.List[ast.stmt]] = None, env0: T.Optional[T.Dict[str, ast.AST]] = None,
@@ -354,12 +364,12 @@ class Sym:
         if env0:
             base.update(env0)
         for p in en.run(stmts):
-            r = self.replay(p, dict(base), loops)
+            r = self.propagate(p, dict(base), loops)
             if r is not None:
                 out.append(r)
         return out
 
-    def replay(self, p: Path, env: T.Dict[str, ast.AST], loops: T.Dict[int, int]) -> T.Optional[SRow]:
+    def propagate(self, p: Path, env: T.Dict[str, ast.AST], loops: T.Dict[int, int]) -> T.Optional[SRow]:
         row = SRow()
         row.path = p
         seen_loops: T.Set[int] = set()
@@ -445,21 +455,6 @@ class Sym:
         row.env = env
         return row
 
-    def _pure_text(self, a: Atom) -> bool:
-        for x in a.args:
-            for s in (x if isinstance(x, tuple) else (x,)):
-                try:
-                    e = ast.parse(str(s), mode='eval').body
-                except SyntaxError:
-                    continue
-                for n in ast.walk(e):
-                    if isinstance(n, ast.Call):
-                        f = n.func
-                        name = f.attr if isinstance(f, ast.Attribute) else (f.id if isinstance(f, ast.Name) else None)
-                        if name not in self.pure:
-                            return False
-        return True
-
 
 def to_table(rows: T.List[SRow], name: str) -> tables.Table:
     out = []
@@ -526,7 +521,7 @@ class Loop(T.NamedTuple):
 
 
 def straight_line(sym: Sym, fn: T.Union[ast.FunctionDef, ast.AsyncFunctionDef], qn: str) -> T.Tuple[T.List[T.Tuple[str, T.Any]], T.Dict[str, ast.AST]]:
-    """Replay a function whose top level is simple statements and `for` loops.
+    """Walk a function whose top level is simple statements and `for` loops, propagating definitions.
 
     Returns the ordered items ('fx', Fx) / ('loop', Loop) / ('return', node) and the final environment."""
     stmts = prepare(fn.body)
@@ -583,13 +578,3 @@ def chain_sources(it: ast.AST) -> T.List[ast.AST]:
         if name == 'chain' and not it.keywords:
             return [one(a) for a in it.args]
     return [one(it)]
-
-
-def memo_imports(mod: T.Any) -> None:
-    """sa.core.Module.imports() walks the whole tree on every call and is called once per base class by
-    Repo.mro/resolve_class; memoise it on the instance (the engine file is shared and not edited)."""
-    if getattr(mod, '_c07_imports_memo', False):
-        return
-    table = mod.imports()
-    mod.imports = lambda: table
-    mod._c07_imports_memo = True
